@@ -8,7 +8,8 @@ EXPLANATION = ("C08: (R1) SourceMapIndex::lookup_token selects the section with 
                "seven builder.add arguments positionally with the line shift always and the column shift on line 0 only, "
                "using checked additions; (R3) new id / old id are not confused for contents and ignore list; (R4) the three "
                "map kinds and the unresolved-section error; (R5) sections are sorted on load and offsets immutable; (R6) "
-               "panic-freedom of lookup and flatten.")
+               "panic-freedom of lookup and flatten."
+               " (R9) SourceMapBuilder::new stores the file as given and starts empty.")
 NOT_DECIDED = "the pointwise agreement lookup-on-index == lookup-on-flattened (value-level)."
 
 
